@@ -63,6 +63,7 @@ class CThread:
             name, lambda: self.target(*self.args, **self.kwargs), proc,
             traced=traced,
         )
+        self.t.daemon = bool(self.daemon)
 
     def is_alive(self) -> bool:
         return self.t is not None and self.t.alive
@@ -76,6 +77,47 @@ class CThread:
         if self.t.alive:
             t = self.t
             S.block_until(lambda: not t.alive, 'join', t.name)
+
+
+def as_process_main(fn: Callable, proc: str) -> Callable:
+    """The main thread of a simulated process.  When it returns (or dies of
+    an exception) the interpreter of a real process shuts down: it waits for
+    the non-daemon threads, abandons the daemon ones, and the process is
+    gone -- its connections close and peers see end-of-file.  Without this a
+    worker whose main loop ended would live on as its daemon incoming thread,
+    which no real worker does."""
+    def run() -> None:
+        err = None
+        try:
+            fn()
+        except Abort:
+            raise
+        except BaseException:  # noqa: the main thread died of an exception
+            import traceback
+            err = traceback.format_exc()
+        if err is not None:
+            me = S.me()
+            me.exc = err
+            S.thread_errors.append((me.name, err))
+        _process_exit(proc)
+    return run
+
+
+def _process_exit(proc: str) -> None:
+    """Never returns (like FakeOS.kill): the calling thread is part of the
+    process that ends here."""
+    me = S.me()
+    others = [t for t in S.T.values()
+              if t.proc == proc and t is not me and not t.daemon]
+    if any(t.alive and not t.killed for t in others):
+        S.block_until(
+            lambda: not any(t.alive and not t.killed for t in others),
+            'exitjoin', proc)
+    WORLD.exits.append(proc)
+    S.kill_proc(proc)
+    # hand the baton on
+    S._switch(me, True, 'exit', None, True)
+    raise Abort()
 
 
 class CProcess:
@@ -100,8 +142,9 @@ class CProcess:
         )
         S.spawn(
             name + '.main',
-            lambda: self.target(*self.args, **self.kwargs), name,
-            traced=traced,
+            as_process_main(
+                lambda: self.target(*self.args, **self.kwargs), name),
+            name, traced=traced,
         )
 
     def join(self, timeout: Any = None) -> None:
@@ -662,6 +705,8 @@ class World:
     # topology builders ------------------------------------------------------
     def spawn(self, name: str, fn: Callable, proc: str,
               traced: bool = False) -> None:
+        if name == proc + '.main' and proc[0] in 'smw':
+            fn = as_process_main(fn, proc)   # servers, managers, boss-mode worker
         S.spawn(name, fn, proc, traced)
 
     def attached_server(self, nworkers: int, port: int = 7472,
